@@ -23,7 +23,7 @@ def run_one(sid, patch, prop, reverse=False, allprops=False):
             if not os.path.exists(f'{V}/sa/rules/{p.lower()}.py'):
                 continue
             r = subprocess.run([f'{V}/check', p, '--repo', d], capture_output=True, text=True, env=env)
-            rules = sorted(set(re.findall(r'\s(C\d\d-R[\w/]+)\s', r.stdout)))
+            rules = sorted(set(re.findall(r'\s(C\d\d-[RMO][\w/]+)\s', r.stdout)))
             res[p] = (r.returncode, rules, r.stdout.strip().split('\n')[-1] if r.returncode == 2 else '')
         return sid, prop, res, ''
     finally:
